@@ -32,6 +32,7 @@ def run(tier):
     rng = random.Random(vlib.seed())
     lines = rg.gen_filtered(rng, D, 4000 if quick else 60000)
     lines += [dict(l, f=rg.rand_filter(rng)) for l in rg.gen_mutants(rng, D, 1500 if quick else 20000)]
+    lines += rg.gen_duplicate_keys(rng, D, filters=True)
     r, cases, n = rc.feed_cases(chk, "filtered", wd, lines)
     chk.add_tlc(r)
     # spec-level agreement between the skip-mode machine and the declarative projection
